@@ -353,6 +353,18 @@ impl RHistory {
                 let obs = self.emit(op);
                 self.check_event(&obs);
             }
+            14 => {
+                // counters warped forward: message ids no longer start at 0, the monitors that index the submitted
+                // messages by id stop for this endpoint; sizes, codecs and the comparison with the model go on
+                if let Some(e) = v.get(1).and_then(parse_ep) {
+                    self.emit(op);
+                    self.mon(e).hostile_in = true;
+                    if let Some(p) = self.pairs.get(&e).copied() {
+                        self.mon(p).hostile_in = true;
+                    }
+                    self.feat("counters_warped");
+                }
+            }
             39 => {
                 // process_local_client moves packets between the two halves without showing them: the packet level
                 // monitors of both endpoints stop here, the comparison with the model goes on
